@@ -118,3 +118,42 @@ have E : D1 ^ n * D2 ^ n = D2 ^ n * D1 ^ n by rewrite mulnC.
 move: (lower (wbinom n a (D1 - a)) x) (lower (wbinom n c (D2 - c)) x) (Ub n x.+1 a (D1 - a)) (Ub n x.+1 c (D2 - c)) La Lc Hm => la lc ua uc La Lc Hm.
 move: (D1 ^ n) (D2 ^ n) La Lc Hm => P1 P2 La Lc Hm. nia.
 Qed.
+
+(* ---- soundness of the certificate for a numerically solved Clopper-Pearson limit ---- *)
+Lemma Qle_boolP (a b : Q) : Qle_bool a b = true -> (a <= b)%Q.
+Proof. by move/Qle_bool_iff. Qed.
+
+(* lower limit L: every p below the bracket has P_p(X >= x) <= a, every p above it has P_p(X >= x) >= a; L
+   itself lies in the bracket, whose width is at most 3 delta.  Hence the exact limit (where the nondecreasing
+   tail crosses a) is within 3 delta of L. *)
+Theorem lower_cert_sound n x (a L p1 p2 delta : Q) :
+  lower_cert n x a L p1 p2 delta = true ->
+  [/\ (p1 <= L)%Q, (L <= p2)%Q, (p2 - p1 <= (3 # 1) * delta)%Q,
+      (forall p, (0 <= p)%Q -> (p <= p1)%Q -> ~ (p1 == 0)%Q -> (binom_upper_q n x p <= a)%Q) &
+      (forall p, (p2 <= p)%Q -> (p <= 1)%Q -> ~ (p2 == 1)%Q -> (a <= binom_upper_q n x p)%Q)].
+Proof.
+rewrite /lower_cert /bracket_ok /in01.
+case/andP => /andP [/andP [/andP [/andP [/andP [/andP [a0 a1] /andP [b0 b1]] l1] l2] w] t1] t2.
+move: a0 a1 b0 b1 l1 l2 w => /Qle_boolP a0 /Qle_boolP a1 /Qle_boolP b0 /Qle_boolP b1 /Qle_boolP l1 /Qle_boolP l2 /Qle_boolP w.
+split=> //.
+- move=> p p0 pp1 nz; case/orP: t1 => [/Qle_boolP t1|/Qeq_bool_iff e]; last by case: nz.
+  apply: Qle_trans t1; exact: binom_upper_q_mono.
+- move=> p pp2 pl1 nz; case/orP: t2 => [/Qle_boolP t2|/Qeq_bool_iff e]; last by case: nz.
+  apply: Qle_trans t2 _; exact: binom_upper_q_mono.
+Qed.
+
+Theorem upper_cert_sound n x (a U q1 q2 delta : Q) :
+  upper_cert n x a U q1 q2 delta = true ->
+  [/\ (q1 <= U)%Q, (U <= q2)%Q, (q2 - q1 <= (3 # 1) * delta)%Q,
+      (forall p, (0 <= p)%Q -> (p <= q1)%Q -> ~ (q1 == 0)%Q -> (a <= binom_lower_q n x p)%Q) &
+      (forall p, (q2 <= p)%Q -> (p <= 1)%Q -> ~ (q2 == 1)%Q -> (binom_lower_q n x p <= a)%Q)].
+Proof.
+rewrite /upper_cert /bracket_ok /in01.
+case/andP => /andP [/andP [/andP [/andP [/andP [/andP [a0 a1] /andP [b0 b1]] l1] l2] w] t1] t2.
+move: a0 a1 b0 b1 l1 l2 w => /Qle_boolP a0 /Qle_boolP a1 /Qle_boolP b0 /Qle_boolP b1 /Qle_boolP l1 /Qle_boolP l2 /Qle_boolP w.
+split=> //.
+- move=> p p0 pp1 nz; case/orP: t2 => [/Qle_boolP t2|/Qeq_bool_iff e]; last by case: nz.
+  apply: Qle_trans t2 _; exact: binom_lower_q_anti.
+- move=> p pp2 pl1 nz; case/orP: t1 => [/Qle_boolP t1|/Qeq_bool_iff e]; last by case: nz.
+  apply: Qle_trans t1; exact: binom_lower_q_anti.
+Qed.
